@@ -178,12 +178,21 @@ class dotdict_base( object ):
         if mine in self.__invalid_keys__ or mine.startswith( '__' ):
             # Neither as a value, nor as a (newly created) level
             raise KeyError( "A dotdict cannot support insertion of item/attribute with name {!r}".format( mine ))
-        if rest:
+        if rest is not None:
+            if not rest:
+                # A trailing '.' names nothing (as for lookup)
+                raise KeyError( 'cannot set "%s" in "%s" from key "%s"' % ( rest, mine, key ))
             if '[' in mine:
                 # If indexing used in path down to target, must be pre-existing values
                 target          = eval( mine, {'__builtins__':{}}, self )
+            elif super( dotdict_base, self ).__contains__( mine ):
+                target          = super( dotdict_base, self ).__getitem__( mine )
             else:
-                target          = super( dotdict_base, self ).setdefault( mine, dotdict() )
+                # A new level; it becomes part of the tree only if the assignment below it succeeds
+                target          = dotdict()
+                target[rest]    = value
+                super( dotdict_base, self ).__setitem__( mine, target )
+                return
             if not isinstance( target, dotdict_base ):
                 raise KeyError( 'cannot set "%s" in "%s" (%r)' % ( rest, mine, target ))
             target[rest]        = value
@@ -301,6 +310,9 @@ class dotdict_base( object ):
             if isinstance( target, dotdict_base ) and len( target ):
                 raise KeyError( 'cannot del "%s" (partial key)' % ( mine ))
             return super( dotdict_base, self ).__delitem__( mine )
+        if not isinstance( target, dotdict_base ):
+            # A path leading through something that is not a level names nothing (as for lookup)
+            raise KeyError( 'cannot del "%s" in "%s" (%r)' % ( rest, mine, target ))
         del target[rest]
 
     def pop( self, *args ):
